@@ -3,9 +3,16 @@
 package main
 
 import (
+	"crypto/sha1"
 	"encoding/binary"
+	"encoding/hex"
+	"encoding/json"
 	"fmt"
+	"os"
+	"os/exec"
+	"path/filepath"
 	"runtime"
+	"strings"
 	"sync"
 	"sync/atomic"
 	"time"
@@ -14,31 +21,43 @@ import (
 	"verif/harness/lib"
 )
 
-// One writer commits version v = 1, 2, ... by rewriting the same 8 keys in ONE batch (plain batch,
-// indexed batch, Update/Write helper, or DeleteRange + puts). Readers take a snapshot or an
-// iterator and must see all 8 keys at one version v with  committed-before <= v <= started-after:
-// a committed prefix of the writer's history, never a torn batch, never going backwards.
+// Two writers with disjoint key families, each with its own batches (db/batch.go: "different batches
+// can be used in different threads"):
+//   - writer A commits version v = 1, 2, ... by rewriting the 8 keys c0.. in ONE batch (plain batch,
+//     indexed batch, Update/Write helper, or DeleteRange + puts);
+//   - writer B alternates, on the 8 keys c2.., a batch that writes them all at version v and a direct
+//     store.DeleteRange over the whole family.
+// Readers take a snapshot, an iterator or an indexed batch and must see, per family, either nothing
+// (family B after a DeleteRange, family A before the first commit) or all 8 keys at ONE version v with
+// committed-before <= v <= started-after: a committed prefix of that writer's history, never a torn
+// batch, never going backwards.
 
-var concKeys = func() [][]byte {
-	var ks [][]byte
+type family struct {
+	prefix             byte
+	keys               [][]byte
+	started, committed atomic.Uint64
+}
+
+func newFamily(prefix byte) *family {
+	f := &family{prefix: prefix}
 	for i := 0; i < 8; i++ {
-		ks = append(ks, []byte{0xc0, byte(i * 37)})
+		f.keys = append(f.keys, []byte{prefix, byte(i * 37)})
 	}
-	return ks
-}()
+	return f
+}
 
 func ver(v uint64) []byte { return binary.BigEndian.AppendUint64(nil, v) }
 
-func commit(store db.KeyValueStore, r *lib.RNG, v uint64) error {
-	order := r.Intn(len(concKeys))
+func (fam *family) commit(store db.KeyValueStore, r *lib.RNG, v uint64) error {
+	order := r.Intn(len(fam.keys))
 	write := func(b db.Batch, withRange bool) error {
 		if withRange {
-			if err := b.DeleteRange([]byte{0xc0}, []byte{0xc1}); err != nil {
+			if err := b.DeleteRange([]byte{fam.prefix}, []byte{fam.prefix + 1}); err != nil {
 				return err
 			}
 		}
-		for i := range concKeys {
-			key := concKeys[(i+order)%len(concKeys)]
+		for i := range fam.keys {
+			key := fam.keys[(i+order)%len(fam.keys)]
 			if i%3 == 0 && !withRange {
 				if err := b.Delete(key); err != nil {
 					return err
@@ -75,11 +94,11 @@ func commit(store db.KeyValueStore, r *lib.RNG, v uint64) error {
 	return b.Write()
 }
 
-// readVersion returns the single version visible through r (0 = nothing written yet) or an error text.
-func readVersion(r db.KeyValueReader, useIter bool) (uint64, string) {
+// readVersion returns the single version of the family visible through r (0 = no key) or an error text.
+func (fam *family) readVersion(r db.KeyValueReader, useIter bool) (uint64, string) {
 	var vs []uint64
 	if useIter {
-		it, err := r.NewIterator([]byte{0xc0}, true)
+		it, err := r.NewIterator([]byte{fam.prefix}, true)
 		if err != nil {
 			return 0, "NewIterator: " + err.Error()
 		}
@@ -93,12 +112,12 @@ func readVersion(r db.KeyValueReader, useIter bool) (uint64, string) {
 			vs = append(vs, binary.BigEndian.Uint64(val))
 			n++
 		}
-		if n != 0 && n != len(concKeys) {
-			return 0, fmt.Sprintf("iterator saw %d of %d keys", n, len(concKeys))
+		if n != 0 && n != len(fam.keys) {
+			return 0, fmt.Sprintf("iterator saw %d of %d keys", n, len(fam.keys))
 		}
 	} else {
 		missing := 0
-		for _, key := range concKeys {
+		for _, key := range fam.keys {
 			err := r.Get(key, func(val []byte) error {
 				if len(val) != 8 {
 					return fmt.Errorf("value %x", val)
@@ -112,8 +131,8 @@ func readVersion(r db.KeyValueReader, useIter bool) (uint64, string) {
 				return 0, "Get: " + err.Error()
 			}
 		}
-		if missing != 0 && missing != len(concKeys) {
-			return 0, fmt.Sprintf("%d of %d keys missing", missing, len(concKeys))
+		if missing != 0 && missing != len(fam.keys) {
+			return 0, fmt.Sprintf("%d of %d keys missing", missing, len(fam.keys))
 		}
 	}
 	if len(vs) == 0 {
@@ -128,14 +147,15 @@ func readVersion(r db.KeyValueReader, useIter bool) (uint64, string) {
 }
 
 func concurrentRun(b Backend, r *lib.RNG, commits, readers int, maxWait time.Duration, res *lib.Result) {
-	store, clean, err := b.Open()
+	st, err := b.Open()
 	if err != nil {
-		res.Note("concurrency: open %s: %v", b.Name, err)
+		res.Fatalf("concurrency: open %s: %v", b.Name, err)
 		return
 	}
-	defer clean()
+	store := st.KV
+	defer st.clean()
 	defer store.Close()
-	var started, committed atomic.Uint64
+	famA, famB := newFamily(0xc0), newFamily(0xc2)
 	var done atomic.Bool
 	var wg sync.WaitGroup
 	var mu sync.Mutex
@@ -147,71 +167,96 @@ func concurrentRun(b Backend, r *lib.RNG, commits, readers int, maxWait time.Dur
 		}
 		mu.Unlock()
 	}
-	reads := make([]int, readers)
+	var reads atomic.Int64
 	for i := 0; i < readers; i++ {
 		wg.Add(1)
 		rr := r.Fork(uint64(1000 + i))
-		go func(i int) {
+		go func() {
 			defer wg.Done()
-			last := uint64(0)
+			lastA, lastB := uint64(0), uint64(0)
 			for !done.Load() {
-				lo := committed.Load()
-				var v uint64
-				var bad string
+				loA, loB := famA.committed.Load(), famB.committed.Load()
+				var vA, vB uint64
+				var badA, badB string
 				kind := rr.Intn(3)
 				err, panicked, _ := lib.Try(func() error {
 					switch kind {
 					case 0:
 						s := store.NewSnapshot()
-						v, bad = readVersion(s, rr.Bool())
+						useIter := rr.Bool()
+						vA, badA = famA.readVersion(s, useIter)
+						vB, badB = famB.readVersion(s, useIter)
 						return s.Close()
 					case 1:
-						v, bad = readVersion(store, true) // one iterator = one consistent view
+						// one iterator = one consistent view (per family)
+						vA, badA = famA.readVersion(store, true)
+						vB, badB = famB.readVersion(store, true)
 					default:
 						ib := store.NewIndexedBatch()
-						v, bad = readVersion(ib, true)
+						vA, badA = famA.readVersion(ib, true)
+						vB, badB = famB.readVersion(ib, true)
 						return ib.Close()
 					}
 					return nil
 				})
-				hi := started.Load()
+				hiA, hiB := famA.started.Load(), famB.started.Load()
 				switch {
 				case panicked || err != nil:
 					report(fmt.Sprintf("reader kind %d: %v", kind, err))
-				case bad != "":
-					report(fmt.Sprintf("reader kind %d saw a torn state: %s", kind, bad))
-				case v < lo || v > hi:
-					report(fmt.Sprintf("reader kind %d saw version %d outside [%d,%d]", kind, v, lo, hi))
-				case v < last:
-					report(fmt.Sprintf("reader kind %d went back from version %d to %d", kind, last, v))
+				case badA != "" || badB != "":
+					report(fmt.Sprintf("reader kind %d saw a torn state: %s %s", kind, badA, badB))
+				case vA < loA || vA > hiA:
+					report(fmt.Sprintf("reader kind %d saw version %d of family A outside [%d,%d]", kind, vA, loA, hiA))
+				case vA < lastA:
+					report(fmt.Sprintf("reader kind %d went back from version %d to %d (family A)", kind, lastA, vA))
+				case vB != 0 && (vB > hiB || vB < lastB):
+					// family B may be absent (0) at any time; when present it must be a version that was
+					// started, and not older than the newest one this reader has already seen
+					report(fmt.Sprintf("reader kind %d saw version %d of family B (started %d, seen before %d)", kind, vB, hiB, lastB))
 				}
-				last = v
-				mu.Lock()
-				reads[i]++
-				mu.Unlock()
+				_ = loB
+				lastA = vA
+				if vB != 0 {
+					lastB = vB
+				}
+				reads.Add(1)
 			}
-		}(i)
+		}()
 	}
-	totalReads := func() int {
-		mu.Lock()
-		defer mu.Unlock()
-		n := 0
-		for _, x := range reads {
-			n += x
+	// writer B
+	wg.Add(1)
+	rb := r.Fork(77)
+	go func() {
+		defer wg.Done()
+		for v := uint64(1); !done.Load(); v++ {
+			famB.started.Store(v)
+			var err error
+			if v%2 == 0 {
+				err = store.DeleteRange([]byte{famB.prefix}, []byte{famB.prefix + 1})
+			} else {
+				err = famB.commit(store, rb, v)
+			}
+			if err != nil {
+				report("writer B: " + err.Error())
+				return
+			}
+			famB.committed.Store(v)
+			if v%8 == 0 {
+				runtime.Gosched()
+			}
 		}
-		return n
-	}
+	}()
 	t0 := time.Now()
 	ok := lib.WithDeadline(10*time.Minute, func() {
 		// at least `commits` commits; keep committing (bounded in time) until the readers have
-		// completed 2*commits consistent views while the writer was running
-		for v := uint64(1); v <= uint64(commits) || (totalReads() < 2*commits && time.Since(t0) < maxWait); v++ {
-			started.Store(v)
-			if err := commit(store, r, v); err != nil {
-				report("writer: " + err.Error())
+		// completed 2*commits consistent views while the writers were running
+		for v := uint64(1); v <= uint64(commits) || (reads.Load() < int64(2*commits) && time.Since(t0) < maxWait); v++ {
+			famA.started.Store(v)
+			if err := famA.commit(store, r, v); err != nil {
+				report("writer A: " + err.Error())
 				break
 			}
-			committed.Store(v)
+			famA.committed.Store(v)
 			if v%8 == 0 {
 				runtime.Gosched()
 			}
@@ -220,15 +265,15 @@ func concurrentRun(b Backend, r *lib.RNG, commits, readers int, maxWait time.Dur
 	done.Store(true)
 	wg.Wait()
 	if !ok {
-		report("writer did not finish (deadlock?)")
+		res.Fatalf("concurrency on %s: writer did not finish within the harness deadline", b.Name)
 	}
-	total := 0
-	for _, n := range reads {
-		total += n
-	}
-	res.HitN("concurrent-reads:"+b.Name, total)
-	res.HitN("concurrent-commits:"+b.Name, int(committed.Load()))
+	res.HitN("concurrent-reads:"+b.Name, int(reads.Load()))
+	res.HitN("concurrent-commits-A:"+b.Name, int(famA.committed.Load()))
+	res.HitN("concurrent-commits-B:"+b.Name, int(famB.committed.Load()))
 	res.Case(fmt.Sprintf("concurrent/%s/%d", b.Name, commits), true)
+	if reads.Load() < int64(commits)/4 {
+		res.Fatalf("concurrency on %s: only %d consistent views were taken while %d commits ran", b.Name, reads.Load(), commits)
+	}
 	if problem != "" {
 		res.Violate(lib.Violation{Sig: "concurrent-reader-inconsistent:" + b.Name, What: problem,
 			Replay: map[string]any{"backend": b.Name, "commits": commits, "readers": readers, "note": "schedule-dependent; re-run the thorough tier"}})
@@ -236,13 +281,89 @@ func concurrentRun(b Backend, r *lib.RNG, commits, readers int, maxWait time.Dur
 }
 
 func concurrencyPhase(f lib.Flags, r *lib.RNG, res *lib.Result) {
-	for _, b := range []Backend{memoryBackend(), pebble1Backend(false), pebble2Backend(true), pebble2Backend(false)} {
-		concurrentRun(b, r, 3000, 6, 90*time.Second, res)
+	for _, b := range []Backend{memoryBackend(), pebble1Backend(true), pebble2Backend(true), pebble1Backend(false), pebble2Backend(false)} {
+		concurrentRun(b, r, 2000, 6, 60*time.Second, res)
 	}
 }
 
 func concurrencySmoke(r *lib.RNG, res *lib.Result) {
-	for _, b := range []Backend{memoryBackend(), pebble2Backend(false)} {
-		concurrentRun(b, r, 200, 3, 4*time.Second, res)
+	for _, b := range []Backend{memoryBackend(), pebble1Backend(false), pebble2Backend(false)} {
+		concurrentRun(b, r, 200, 3, 3*time.Second, res)
 	}
+}
+
+// concurrencyRaceChild (thorough tier): build this harness with -race and run its concurrency phase
+// in a child process; a report of the race detector makes the child exit with status 66.
+func concurrencyRaceChild(f lib.Flags, res *lib.Result) {
+	repo := os.Getenv("VERIF_REPO")
+	if repo == "" {
+		repo = "/repo"
+	}
+	verif, _ := os.Getwd() // the check driver runs the harness with cwd = /verif
+	if _, err := os.Stat(filepath.Join(verif, "harness", "go.mod")); err != nil {
+		verif = "/verif"
+	}
+	args := []string{"build", "-race", "-tags", "verif"}
+	tag := ""
+	if repo != "/repo" {
+		h := sha1.Sum([]byte(repo))
+		tag = "-" + hex.EncodeToString(h[:])[:8]
+		args = append(args, "-modfile="+filepath.Join(verif, ".build", "go"+tag+".mod"))
+	}
+	bin := filepath.Join(verif, ".build", "vh-c15-race"+tag)
+	args = append(args, "-o", bin, "./cmd/c15")
+	cmd := exec.Command("go", args...)
+	cmd.Dir = filepath.Join(verif, "harness")
+	if out, err := cmd.CombinedOutput(); err != nil {
+		res.Fatalf("-race build of the harness failed: %v: %s", err, lastLines(string(out), 12))
+		return
+	}
+	outPath := filepath.Join(verif, ".build", fmt.Sprintf("result-c15-race-%d.json", os.Getpid()))
+	defer os.Remove(outPath)
+	child := exec.Command(bin, "--conc-only", "--seed", fmt.Sprint(f.Seed), "--tier", f.Tier, "--out", outPath)
+	child.Env = append(os.Environ(), "GORACE=halt_on_error=1 exitcode=66")
+	out, err := child.CombinedOutput()
+	if err != nil {
+		if strings.Contains(string(out), "WARNING: DATA RACE") {
+			res.Violate(lib.Violation{Sig: "data-race-in-concurrent-readers-writers", What: "the race detector fired in the concurrency phase",
+				Replay: map[string]any{"report": lastLines(string(out), 60), "note": "schedule-dependent; re-run the thorough tier"}})
+			return
+		}
+		res.Fatalf("-race child of the concurrency phase failed: %v: %s", err, lastLines(string(out), 12))
+		return
+	}
+	b, err := os.ReadFile(outPath)
+	var cr struct {
+		Cases        int             `json:"cases"`
+		Distribution map[string]int  `json:"distribution"`
+		Violations   []lib.Violation `json:"violations"`
+		Fatal        []string        `json:"fatal"`
+	}
+	if err == nil {
+		err = json.Unmarshal(b, &cr)
+	}
+	if err != nil {
+		res.Fatalf("-race child left no readable result: %v", err)
+		return
+	}
+	for _, ft := range cr.Fatal {
+		res.Fatalf("race child: %s", ft)
+	}
+	for _, v := range cr.Violations {
+		res.Violate(v)
+	}
+	for k, n := range cr.Distribution {
+		res.HitN("race-child:"+k, n)
+	}
+	for i := 0; i < cr.Cases; i++ {
+		res.Case(fmt.Sprintf("race-child-%d", i), true)
+	}
+}
+
+func lastLines(s string, n int) string {
+	ls := strings.Split(strings.TrimSpace(s), "\n")
+	if len(ls) > n {
+		ls = ls[len(ls)-n:]
+	}
+	return strings.Join(ls, "\n")
 }
